@@ -580,6 +580,25 @@ def clause8_switched_on(ctx, P):
            witness=bad.witness() if bad else None)
 
 
+def clause9_unconditional_yes(ctx, P):
+    """has_access() answers 'yes' without looking at the two masks in exactly one situation: no credential file was loaded (the group
+    registry does not exist).  Every other path that returns the constant true - an existing but empty registry, say, which is what a
+    credential file whose users carry no groups produces - opens every element to unauthenticated peers"""
+    ha = P.fn("groups.c:has_access")
+    bad = None
+    n = 0
+    for v in Q.path_views(ctx, P, ha):
+        if v.ret_const() != 1:
+            continue
+        n += 1
+        no_registry = v.has_atom(lambda a, p: a[0] == "cmp" and a[3] == ("null",) and a[2][0] == "load" and a[2][1][0] == "global" and Q._poleq(a, p))
+        if not no_registry:
+            bad = v
+    ctx.ob("C08.1 R-GATE", ha, "yes-without-looking-only-without-a-registry", bad is None and n >= 1,
+           "has_access() returns true without comparing the masks on a path that has not found the group registry absent: with a "
+           "credential file loaded, peers that share no group with an element get it anyway", witness=bad.witness() if bad else None)
+
+
 def run(ctx):
     for cfg in ctx.configs():
         P, cg = cfg.P, cfg.cg
@@ -591,3 +610,4 @@ def run(ctx):
         clause4_taint(ctx, P, cg)
         clause5_origin(ctx, P)
         clause8_switched_on(ctx, P)
+        clause9_unconditional_yes(ctx, P)
